@@ -165,6 +165,73 @@ def h_op(x, bk, op, n):
         be.close()
 
 
+HOPS = ["insert", "bulk2", "replace", "replace_last", "delete", "upsert1"]
+
+
+def h_history(x, bk, L):
+    """whole histories from the empty store: L operations chosen by forking, event contents symbolic;
+    after every step the bucket equals the reference list (cross-check that the inductive pre-states
+    are not too strong, and of id allocation across deletes)"""
+    be = ST.backend(bk)
+    ds = be.make(x, {"A": [], "B": []})
+    try:
+        b = ds["A"]
+        model = []  # list of Row, ids as assigned by the store
+        ever = []  # every id ever handed out together with the liveness at that time
+        obl = []
+        trace = []
+        for step in range(L):
+            live = len(model)
+            ops = [o for o in HOPS if live or o in ("insert", "bulk2")]
+            op = ops[x.choice("op%d" % step, len(ops))]
+            new = ST.sym_rows(x, "s%d" % step, 2, ids=False)
+            if op == "insert":
+                ret = b.insert(ST.event_of_row(x, new[0]))
+                rid = C.zv(ret.id)
+                obl.append(("fresh-id-not-live-step%d" % step, And([rid != r.id for r in model])))
+                model.append(Row(rid, new[0].start, new[0].dur, new[0].tag))
+            elif op == "bulk2":
+                b.insert([ST.event_of_row(x, new[0]), ST.event_of_row(x, new[1])])
+                rows = be.table_rows(ds).get("A", [])
+                fresh = [q for q in rows if not any((isinstance(q.id, int) and isinstance(r.id, int) and q.id == r.id) for r in model)]
+                obl.append(("bulk-adds-two-rows-step%d" % step, len(rows) == live + 2 and len(fresh) == 2))
+                if len(fresh) == 2:
+                    obl.append(("bulk-contents-step%d" % step, Or(And(fresh[0].same_content(new[0]), fresh[1].same_content(new[1])), And(fresh[0].same_content(new[1]), fresh[1].same_content(new[0])))))
+                    model += [Row(fresh[0].id, fresh[0].start, fresh[0].dur, fresh[0].tag), Row(fresh[1].id, fresh[1].start, fresh[1].dur, fresh[1].tag)]
+            elif op == "replace":
+                tgt = model[x.choice("t%d" % step, live)]
+                b.replace(x.wrap(tgt.id), ST.event_of_row(x, new[0]))
+                model[model.index(tgt)] = Row(tgt.id, new[0].start, new[0].dur, new[0].tag)
+            elif op == "upsert1":
+                tgt = model[x.choice("t%d" % step, live)]
+                b.insert([C.mk_event(x, new[0].start, new[0].dur, {"tag": x.wrap(new[0].tag)}, id=x.wrap(tgt.id), aligned=False)])
+                model[model.index(tgt)] = Row(tgt.id, new[0].start, new[0].dur, new[0].tag)
+            elif op == "replace_last":
+                last = b.get(limit=1)
+                lr = row_of_event(last[0]) if last else None
+                obl.append(("limit-1-read-nonempty-step%d" % step, lr is not None))
+                if lr is not None:
+                    b.replace_last(ST.event_of_row(x, new[0]))
+                    hit = [r for r in model if isinstance(r.id, int) and isinstance(lr.id, int) and r.id == lr.id]
+                    obl.append(("limit-1-read-is-a-live-newest-event-step%d" % step, len(hit) == 1 and And([lr.start >= r.start for r in model])))
+                    if len(hit) == 1:
+                        model[model.index(hit[0])] = Row(hit[0].id, new[0].start, new[0].dur, new[0].tag)
+            elif op == "delete":
+                tgt = model[x.choice("t%d" % step, live)]
+                ret = b.delete(x.wrap(tgt.id))
+                obl.append(("delete-reports-success-step%d" % step, bool(ret)))
+                model.remove(tgt)
+            trace.append(op)
+            rows = be.table_rows(ds).get("A", [])
+            obl.append(("bucket-equals-model-step%d" % step, same_rows_as_sets(rows, model)))
+            obl.append(("listing-equals-model-step%d" % step, same_rows_as_sets(api_rows(ds, "A"), model)))
+            obl.append(("count-step%d" % step, b.get_eventcount() == len(model)))
+        obl.append(("other-bucket-stays-empty", be.table_rows(ds).get("B", []) == [] and "<orphans>" not in be.table_rows(ds)))
+        return obl, trace
+    finally:
+        be.close()
+
+
 def harnesses(tier):
     ST.install_common()
     ST.install_sqlite()
@@ -178,6 +245,11 @@ def harnesses(tier):
                 if n == 3 and op in ("insert_many_upsert",):
                     pass
                 hs.append((Harness(PROP, "%s-%s-n%d" % (bk, op, n), h_op, dict(bk=bk, op=op, n=n), "%s backend: %s from an arbitrary valid pre-state of %d+1 events in two buckets" % (bk, op, n), split_depth=6), 1800))
+    for bk in bks:
+        if bk == "peewee" and tier == "quick":
+            continue  # 15 000 paths: thorough tier only
+        for L in ([2] if tier == "quick" else ([2, 3] if bk != "peewee" else [2])):
+            hs.append((Harness(PROP, "%s-history-L%d" % (bk, L), h_history, dict(bk=bk, L=L), "%s backend: every history of %d operations from the empty store (operation and target chosen by forking, contents symbolic)" % (bk, L), split_depth=8), 3600))
     return hs
 
 
@@ -188,7 +260,8 @@ def meta(chk, tier):
         "pre-state: bucket A with %s events + bucket B with 1 event; ids symbolic and pairwise distinct in [1, 1e6]; AUTOINCREMENT high-water mark symbolic >= every live id" % ("1..2" if tier == "quick" else "1..3"),
         "instants multiples of 1 ms in [1970, ~2103] (ties allowed), durations integer microseconds in [0, 24 h] (zero-length allowed), data {'tag': t} with t in 0..2",
         "one operation per run (inductive step over an arbitrary valid state); operations: " + ", ".join(OPS),
-        "backends: memory, sqlite (peewee: see not covered)",
+        "whole histories from the empty store: L = 2 (quick), 3 (thorough) operations out of insert, bulk insert of 2, replace, one-element upsert, replace_last, delete",
+        "backends: memory, sqlite, peewee",
     ]
     chk.stubs = ["sqlite3 -> symex.sqlstub (SQL parsed from the text the source emits; validated against the real library by tools/dualrun.py: 0 divergences on the repository's own tests)",
                  "json -> opaque JsonText for data holding symbolic tags", "float microsecond arithmetic in exact rationals (IEEE fidelity is C01's lemma)", "sqlite.datetime -> fromtimestamp on exact ratios"]
